@@ -6,6 +6,7 @@ package progen
 
 import (
 	"fmt"
+	"os"
 	"strings"
 
 	"pgregory.net/rapid"
@@ -158,6 +159,10 @@ func (g *bodyGen) newInt(b *strings.Builder, lvl int) string {
 }
 
 // block writes 1..n statements.
+// PendingEnabled reports whether generator extensions that have not yet completed a run on the
+// unchanged tree are switched on (VERIF_PENDING=1). The registered commands leave it unset.
+func PendingEnabled() bool { return os.Getenv("VERIF_PENDING") == "1" }
+
 func (g *bodyGen) block(b *strings.Builder, lvl, n int) {
 	// locals declared in this block go out of scope at its end
 	savedInts, savedStrs := len(g.ints), len(g.strs)
@@ -170,6 +175,9 @@ func (g *bodyGen) block(b *strings.Builder, lvl, n int) {
 func (g *bodyGen) stmt(b *strings.Builder, lvl int) {
 	deep := g.depth >= 3
 	k := g.intn(0, 23, "st")
+	if k >= 20 && k <= 21 && !PendingEnabled() {
+		k = 22 // statement kinds not yet validated on the unchanged tree (DESIGN.md 10.10)
+	}
 	if deep && k >= 4 && k <= 14 {
 		k = k % 4
 	}
